@@ -683,7 +683,9 @@ func (pc *parentController) syncParentObject(parent *unstructured.Unstructured) 
 		} else if apierrors.IsConflict(err) {
 			// it is possible that the object was modified after this sync was started, ignore conflict since we will reconcile again
 			pc.logger.V(4).Info("Parent ignoring update due to outdated resourceVersion", "parent_kind", pc.parentResource.Kind, "object", klog.KRef(parent.GetNamespace(), parent.GetName()))
-			return nil
+			// Only the status conflict is benign; a failure to reconcile children
+			// still has to be reported so the parent is retried with back-off.
+			return manageErr
 		}
 		return fmt.Errorf("can't update status for %v %v/%v: %w", pc.parentResource.Kind, parent.GetNamespace(), parent.GetName(), err)
 	}
